@@ -334,6 +334,60 @@ theorem waitBelow_failed {kind : Container} {exit : Nat → Int} {limit : Nat}
         obtain ⟨a, e, he, hx⟩ := ih p1 h
         exact ⟨a, e, (winnow_ok_mem hw).2 e he, hx⟩
 
+theorem waitBelowOrBlocked_done {kind : Container} {exit : Nat → Int} {limit : Nat}
+    (sched : List Poll) (blocked : Bool) (procs : Procs) {procs' : Procs} {sched' : List Poll}
+    (h : waitBelowOrBlocked kind exit limit blocked procs sched = .done procs' sched') :
+    (∀ e ∈ procs, e ∈ procs' ∨ exit e.2 = 0) ∧ (∀ e ∈ procs', e ∈ procs) := by
+  induction sched generalizing procs blocked with
+  | nil =>
+    simp only [waitBelowOrBlocked] at h
+    by_cases hl : (decide (procs.length < limit) && !blocked) = true
+    · simp only [hl, if_true, WaitRes.done.injEq] at h
+      obtain ⟨rfl, _⟩ := h
+      exact ⟨fun e he => Or.inl he, fun e he => he⟩
+    · simp [hl] at h
+  | cons poll rest ih =>
+    simp only [waitBelowOrBlocked] at h
+    by_cases hl : (decide (procs.length < limit) && !blocked) = true
+    · simp only [hl, if_true, WaitRes.done.injEq] at h
+      obtain ⟨rfl, _⟩ := h
+      exact ⟨fun e he => Or.inl he, fun e he => he⟩
+    · simp only [hl, Bool.false_eq_true, if_false] at h
+      cases hw : winnow kind exit poll procs with
+      | error c => simp [hw] at h
+      | ok p1 =>
+        simp only [hw] at h
+        obtain ⟨b, c⟩ := ih _ p1 h
+        obtain ⟨m1, m2⟩ := winnow_ok_mem hw
+        refine ⟨?_, fun e he => m2 e (c e he)⟩
+        intro e he
+        rcases m1 e he with h1 | h1
+        · exact b e h1
+        · exact Or.inr h1
+
+theorem waitBelowOrBlocked_failed {kind : Container} {exit : Nat → Int} {limit : Nat}
+    (sched : List Poll) (blocked : Bool) (procs : Procs) {code : Int}
+    (h : waitBelowOrBlocked kind exit limit blocked procs sched = .failed code) :
+    code ≠ 0 ∧ ∃ e ∈ procs, exit e.2 = code := by
+  induction sched generalizing procs blocked with
+  | nil =>
+    simp only [waitBelowOrBlocked] at h
+    by_cases hl : (decide (procs.length < limit) && !blocked) = true <;> simp [hl] at h
+  | cons poll rest ih =>
+    simp only [waitBelowOrBlocked] at h
+    by_cases hl : (decide (procs.length < limit) && !blocked) = true
+    · simp [hl] at h
+    · simp only [hl, Bool.false_eq_true, if_false] at h
+      cases hw : winnow kind exit poll procs with
+      | error c =>
+        simp only [hw, WaitRes.failed.injEq] at h
+        subst h
+        exact winnow_error hw
+      | ok p1 =>
+        simp only [hw] at h
+        obtain ⟨a, e, he, hx⟩ := ih _ p1 h
+        exact ⟨a, e, (winnow_ok_mem hw).2 e he, hx⟩
+
 /-! ### invariants of the stage machine -/
 
 /-- dict stages: distinct workers are registered under distinct keys
@@ -420,6 +474,17 @@ theorem execLoopStmt_good {kind : Container} {env : Env} (hk : KeysOK kind env.k
       exact good_of_subset hg b c
     | failed c => simp [hw] at h
     | spin => simp [hw] at h
+  | pollWhileFullOrBlocked =>
+    simp only [execLoopStmt] at h
+    cases hw : waitBelowOrBlocked kind env.exit env.nProc (env.blocked s.started) s.procs
+        s.sched with
+    | done p sc =>
+      simp only [hw, Res.ok.injEq] at h
+      subst h
+      obtain ⟨b, c⟩ := waitBelowOrBlocked_done _ _ _ hw
+      exact good_of_subset hg b c
+    | failed c => simp [hw] at h
+    | spin => simp [hw] at h
 
 def bodyRegistered (body : List LoopStmt) : Bool := body.all (fun ls => ls != .start false)
 
@@ -486,6 +551,17 @@ theorem execBody_failed {kind : Container} {env : Env} (hk : KeysOK kind env.key
           simp only [hw, Res.failed.injEq] at h1
           obtain ⟨rfl, rfl⟩ := h1
           obtain ⟨a, e, he, hx⟩ := waitBelow_failed _ _ hw
+          exact ⟨a, e.2, (hg.keyed e he).2, hx⟩
+      | pollWhileFullOrBlocked =>
+        simp only [execLoopStmt] at h1
+        cases hw : waitBelowOrBlocked kind env.exit env.nProc (env.blocked s.started) s.procs
+            s.sched with
+        | done p sc => simp [hw] at h1
+        | spin => simp [hw] at h1
+        | failed c' =>
+          simp only [hw, Res.failed.injEq] at h1
+          obtain ⟨rfl, rfl⟩ := h1
+          obtain ⟨a, e, he, hx⟩ := waitBelowOrBlocked_failed _ _ _ hw
           exact ⟨a, e.2, (hg.keyed e he).2, hx⟩
 
 theorem execDispatch_failed {kind : Container} {env : Env} (hk : KeysOK kind env.keyOf)
@@ -641,6 +717,9 @@ theorem execLoopStmt_file (kind : Container) (env : Env) (ls : LoopStmt) (s : St
   | pollWhileFull =>
     simp only [execLoopStmt]
     cases waitBelow kind env.exit env.nProc s.procs s.sched <;> rfl
+  | pollWhileFullOrBlocked =>
+    simp only [execLoopStmt]
+    cases waitBelowOrBlocked kind env.exit env.nProc (env.blocked s.started) s.procs s.sched <;> rfl
 
 theorem execBody_file (kind : Container) (env : Env) (body : List LoopStmt) (s : St) :
     (execBody kind env body s).state.file = s.file := by
